@@ -71,6 +71,16 @@ func staticKeyRing() *gmsl.KeyRing {
 	return &gmsl.KeyRing{KeyDatabase: db}
 }
 
+var theKeyRing *gmsl.KeyRing
+
+// sharedKeyRing is ONE key ring used for all signature checks of a worker (state carried between calls).
+func sharedKeyRing() *gmsl.KeyRing {
+	if theKeyRing == nil {
+		theKeyRing = staticKeyRing()
+	}
+	return theKeyRing
+}
+
 // ---------------------------------------------------------------- join client stub
 
 type joinClient struct {
@@ -138,7 +148,7 @@ var RawEntryPoints = []string{"Parse:untrusted", "Canonicalise:CanonicalJSON", "
 	"VerifyJSON", "SignJSON", "ListKeyIDs", "CheckKeys", "KeyRing", "ParseAuthorization", "VerifyHTTPRequest", "HTTPRequest",
 	"ParseIdentifier:NewRoomID", "ParseIdentifier:NewUserID", "ParseIdentifier:NewUserIDStrict", "ParseIdentifier:ServerName",
 	"ParseIdentifier:SenderID", "ParseIdentifier:SplitID",
-	"Body:CheckStateResponse", "Body:SendJoin", "Body:Transaction", "Body:PerformJoin", "Body:LoadAndVerify"}
+	"Body:CheckStateResponse", "Body:SendJoin", "Body:Transaction", "Body:PerformJoin", "Body:LoadAndVerify", "Handle:InviteV3"}
 
 // hasError says whether an entry point has an error channel (else only "ok" is a legal outcome).
 func rawHasError(op string) bool {
@@ -338,6 +348,8 @@ func (s *pipeState) rawOp(op, ver string, data []byte) outcome {
 		})
 	case "Body:PerformJoin":
 		return s.performJoin(ver, data)
+	case "Handle:InviteV3":
+		return s.handleInviteV3(ver, data)
 	}
 	if strings.HasPrefix(op, "Decode:") {
 		mk, ok := DecodeTargets[op[7:]]
@@ -376,18 +388,31 @@ func (s *pipeState) keyRing(data []byte) outcome {
 		}
 		msg, _ := json.Marshal(map[string]interface{}{"a": 1, "signatures": map[string]interface{}{string(name): sigs}})
 		var firstErr error
-		for _, fetcher := range []gmsl.KeyFetcher{
-			&gmsl.DirectKeyFetcher{Client: keyClient{keys}, IsLocalServerName: func(spec.ServerName) bool { return false }},
-			&gmsl.PerspectiveKeyFetcher{PerspectiveServerName: "hs1", PerspectiveServerKeys: map[gmsl.KeyID]ed25519.PublicKey{"ed25519:1": serverKeys["hs1"].Public().(edPub)}, Client: keyClient{keys}},
-		} {
-			ring := gmsl.KeyRing{KeyFetchers: []gmsl.KeyFetcher{fetcher}, KeyDatabase: &memKeyDB{m: map[gmsl.PublicKeyLookupRequest]gmsl.PublicKeyLookupResult{}}}
-			res, err := ring.VerifyJSONs(bg, []gmsl.VerifyJSONRequest{{ServerName: name, AtTS: 1000, Message: msg, ValidityCheckingFunc: gmsl.NoStrictValidityCheck}})
-			if err == nil && len(res) > 0 {
-				err = res[0].Error
+		keep := func(res []gmsl.VerifyJSONResult, err error) {
+			for i := 0; err == nil && i < len(res); i++ {
+				err = res[i].Error
 			}
 			if firstErr == nil {
 				firstErr = err
 			}
+		}
+		unknown, _ := json.Marshal(map[string]interface{}{"a": 1, "signatures": map[string]interface{}{string(name): map[string]string{"ed25519:unknown": garbage}}})
+		req := func(n spec.ServerName, m []byte) gmsl.VerifyJSONRequest {
+			return gmsl.VerifyJSONRequest{ServerName: n, AtTS: 1000, Message: m, ValidityCheckingFunc: gmsl.NoStrictValidityCheck}
+		}
+		for _, fetcher := range []gmsl.KeyFetcher{
+			&gmsl.DirectKeyFetcher{Client: keyClient{keys}, IsLocalServerName: func(spec.ServerName) bool { return false }},
+			&gmsl.PerspectiveKeyFetcher{PerspectiveServerName: "hs1", PerspectiveServerKeys: map[gmsl.KeyID]ed25519.PublicKey{"ed25519:1": serverKeys["hs1"].Public().(edPub)}, Client: keyClient{keys}},
+		} {
+			// ONE key ring for a sequence of requests: what the first request stored is what the later ones meet
+			ring := gmsl.KeyRing{KeyFetchers: []gmsl.KeyFetcher{fetcher}, KeyDatabase: &memKeyDB{m: map[gmsl.PublicKeyLookupRequest]gmsl.PublicKeyLookupResult{}}}
+			keep(ring.VerifyJSONs(bg, []gmsl.VerifyJSONRequest{req(name, msg)}))
+			keep(ring.VerifyJSONs(bg, []gmsl.VerifyJSONRequest{req(name, msg)}))                       // the same again: keys now come from the database
+			keep(ring.VerifyJSONs(bg, []gmsl.VerifyJSONRequest{req(name, unknown)}))                   // a key ID the response did not announce
+			keep(ring.VerifyJSONs(bg, []gmsl.VerifyJSONRequest{req("hs7", msg), req(name, msg)}))      // a server the response does not cover, mixed with one it covers
+			keep(ring.VerifyJSONs(bg, []gmsl.VerifyJSONRequest{req(name, msg), req(name, msg)}))       // the same request twice in one batch
+			keep(ring.VerifyJSONs(bg, []gmsl.VerifyJSONRequest{req(name, []byte(`{"signatures":5}`))})) // a message without usable signatures, then the good one again
+			keep(ring.VerifyJSONs(bg, []gmsl.VerifyJSONRequest{req(name, msg)}))
 		}
 		return firstErr
 	})
